@@ -26,7 +26,8 @@ EXPLANATION = (
     'sector antenna pattern = gain_lin * dB2Linear(-min(12 (theta/theta3dB)^2, Am)). C13.d: wherever the inverse '
     'query is offered it is the algebraic inverse of the forward formula (term composition = identity) or raises '
     'NotImplementedError. Not decided: monotonicity, Friis within 0.01 dB, values in (0,1].'
-    ' General rules also applied here (see DESIGN 10.5): validate-before-commit (no `raise` reachable after the object was already changed in a public mutator); input immutability (no in-place modification of an array argument, alias- and view-aware).')
+    ' General rules also applied here (see DESIGN 10.5): validate-before-commit (no `raise` reachable after the object was already changed in a public mutator); input immutability (no in-place modification of an array argument, alias- and view-aware).'
+    " C13.l: no arithmetic / domain error of a formula is swallowed into a constant. C13.m: raw array-like inputs are not raised to integer powers in the caller's dtype.")
 
 PARAM_ATTRS = {'_n', '_C', '_fc', '_hbs', '_hms', '_area_type'}
 
@@ -403,6 +404,14 @@ class P:
 
 
 MUTANTS = [
+    Mutant('log-domain-error-becomes-0-dB', PL, 'PathLossGeneral._calc_deterministic_path_loss_dB',
+           [('replace', 'PL = 10 * self._n * log10(d) + self._C', 'try:\n        PL = 10 * self._n * log10(d) + self._C\n    except ValueError:\n        PL = 0.0')],
+           r'C13\.l:PathLossGeneral\._calc_deterministic_path_loss_dB:default-on-error'),
+    Mutant('attenuation-squared-in-the-callers-dtype', AG, 'AntGainBS3GPP25996.get_antenna_gain',
+           [('replace', '12 * (angle / self.theta_3db) ** 2', '12 * angle ** 2 / self.theta_3db ** 2')],
+           r'C13\.m:AntGainBS3GPP25996\.get_antenna_gain:integer-power:angle'),
+    Mutant('benign-attenuation-np-square-of-ratio', AG, 'AntGainBS3GPP25996.get_antenna_gain',
+           [('replace', '12 * (angle / self.theta_3db) ** 2', '12 * np.square(angle / self.theta_3db)')], None, benign=True),
     Mutant('wall-masks-computed-before-the-broadcast', PL, 'PathLossMetisPS7._calc_PS7_path_loss_dB_same_floor',
            [('regex', r'(        \[_, num_walls\] = np\.broadcast_arrays\(d, num_walls\)\n)', r'        LOS_index = num_walls == 0\n        NLOS_index = ~LOS_index\n\1'),
             ('regex', r'(assert isinstance\(num_walls, np\.ndarray\)\n)        LOS_index = num_walls == 0\n        NLOS_index = ~LOS_index\n', r'\1')],
